@@ -98,6 +98,19 @@ def RawCommit.toCommit {π} (c : RawCommit π) : Except Unit (Commit π) :=
   | .ok ts => .ok { parents := c.parents, tags := ts, isMatch := c.isMatch, pins := c.pins, time := c.time }
   | .error _ => .error ()
 
+/-! ### the second way to detect builds: the number saved in a file (`RepoBuildsBySavedBuildNumDetector`) -/
+
+/-- `is_build_commit` : the number saved in the commit differs from the number saved in every parent (`sv` = the saved
+numbers of all the commits of the repository, by commit id) -/
+def savedIsBuild (sv : List BN) (parents : List Nat) (c : Nat) : Bool :=
+  parents.all fun p => sv[p]? != sv[c]?
+
+/-- the build numbers of a commit under this detector, as the tag-based model sees them: the saved number when the
+commit is a build, none otherwise.  (The code shows the saved number also for a branch head that is not a build, where
+the model says "not built": histories whose release heads are builds are inside the model, the harness keeps to them.) -/
+def savedTags (sv : List BN) (parents : List Nat) (c : Nat) : List BN :=
+  if savedIsBuild sv parents c then (match sv[c]? with | some b => [b] | none => []) else []
+
 def toCommits {π} : List (RawCommit π) → Except Unit (List (Commit π))
   | [] => .ok []
   | c :: cs =>
